@@ -9,6 +9,7 @@ mod c07api;
 mod c08;
 mod c09;
 mod c10;
+mod c10net;
 mod c11;
 mod c12;
 mod c14;
@@ -113,6 +114,43 @@ fn run3<P: Property, Q: Property, R: Property>(p: P, q: Q, r3: R, args: &[String
     }
 }
 
+/// two harnesses under one property id (C10: scripted streams and a real connection)
+fn run2<P: Property, Q: Property>(p: P, q: Q, tag: &str, args: &[String], quick: (usize, usize), thorough_n: (usize, usize)) -> ! {
+    if let Some(path) = arg(args, "--replay") {
+        let path = PathBuf::from(path);
+        let is_q = path.file_name().and_then(|f| f.to_str()).map(|f| f.contains(q.case_prefix()) && !q.case_prefix().is_empty()).unwrap_or(false);
+        let ok = if is_q { replay_property(&q, &path) } else { replay_property(&p, &path) }.unwrap_or_else(|e| {
+            println!("replay failed: {e:#}");
+            false
+        });
+        println!("replay: {}", if ok { "no mismatch (case passes)" } else { "case fails" });
+        std::process::exit(if ok { 0 } else { 1 });
+    }
+    let thorough = arg(args, "--tier").as_deref() == Some("thorough");
+    let seed: u64 = arg(args, "--seed").and_then(|s| s.parse().ok()).unwrap_or(1);
+    let mk = |cases: usize| RunCfg {
+        seed,
+        thorough,
+        cases,
+        replay_dir: PathBuf::from(arg(args, "--replay-dir").unwrap_or("/verif/replays".into())),
+        threads: arg(args, "--threads").and_then(|s| s.parse().ok()).unwrap_or(12),
+        budget_secs: std::env::var("VERIF_BUDGET_SECS").ok().and_then(|s| s.parse().ok()).unwrap_or(if thorough { 3000 } else { 300 }),
+    };
+    let out = arg(args, "--out").map(PathBuf::from);
+    let cfg1 = mk(if thorough { thorough_n.0 } else { quick.0 });
+    let cfg2 = mk(if thorough { thorough_n.1 } else { quick.1 });
+    start_watchdog(p.id(), cfg1.replay_dir.clone(), std::time::Duration::from_secs(std::env::var("VERIF_HANG_SECS").ok().and_then(|s| s.parse().ok()).unwrap_or(120)));
+    let r = run_property(&p, &cfg1)
+        .and_then(|a| run_property(&q, &cfg2).map(|b| merge_reports(a, b, tag)));
+    match r {
+        Ok(report) => print_and_exit(&report, out.as_deref()),
+        Err(e) => {
+            println!("harness error: {e:#}");
+            std::process::exit(2)
+        }
+    }
+}
+
 fn main() {
     // panics inside cases are caught and reported; keep stderr quiet
     std::panic::set_hook(Box::new(|_| {}));
@@ -127,7 +165,7 @@ fn main() {
         "C06" => run(c06::C06::new(), &args, 250, 4000),
         "C08" => run(c08::C08::new(), &args, 700, 20000),
         "C09" => run(c09::C09::new(), &args, 400, 8000),
-        "C10" => run(c10::C10::new(), &args, 300, 5000),
+        "C10" => run2(c10::C10::new(), c10net::C10Net::new(), "connection", &args, (300, 60), (5000, 1500)),
         "C11" => run(c11::C11::new(), &args, 600, 10000),
         "C12" => run(c12::C12::new(), &args, 600, 10000),
         "C13" => run(storeprops::StoreProp::new("C13"), &args, 2500, 40000),
